@@ -2,6 +2,7 @@
 package c08
 
 import (
+	"github.com/apache/skywalking-banyandb/banyand/internal/verif/simknobs"
 	"fmt"
 	"os"
 	"path/filepath"
@@ -39,6 +40,9 @@ func widSet(ws []int64) string {
 
 func runStream(e *simcore.Env, tp *simcore.Tape) {
 	synctest.Test(e.T, func(*testing.T) {
+		knobDesc, knobRestore := simknobs.Draw(tp, "stream")
+		defer knobRestore()
+		e.Event("%s", knobDesc)
 		base := wl.GenStreamSchema(tp, wl.SchemaOpts{MaxShards: 2})
 		// twin schema: same tags, no index rule at all
 		bare := *base
@@ -394,6 +398,9 @@ func clip(s string) string {
 
 func runMeasure(e *simcore.Env, tp *simcore.Tape) {
 	synctest.Test(e.T, func(*testing.T) {
+		knobDesc, knobRestore := simknobs.Draw(tp, "measure")
+		defer knobRestore()
+		e.Event("%s", knobDesc)
 		base := wl.GenMeasureSchema(tp, wl.SchemaOpts{MaxShards: 2})
 		bare := *base
 		bare.Tags = append([]wl.TagSpec(nil), base.Tags...)
